@@ -19,6 +19,7 @@ fn main() {
         "C12" => dispatch::<props::c12::C12>(&args, &verif),
         "C13" => dispatch::<props::c13::C13>(&args, &verif),
         "C14" => dispatch::<props::c14::C14>(&args, &verif),
+        "C15" => dispatch::<props::c15::C15>(&args, &verif),
         "C18" => dispatch::<props::c18::C18>(&args, &verif),
         "C19" => dispatch::<props::c19::C19>(&args, &verif),
         _ => {
